@@ -530,6 +530,29 @@ def r18b(P, R):
             R.undecided("R18-b", key, "; ".join(und) or "%s writes to stdout but no call of it was found" % g.path, loc=g.loc())
         else:
             R.holds("R18-b", key, "prints its own format and is selected only by the output-format dispatch", loc=g.loc())
+    # the logger: simple_logger prints enabled records on stdout.  The level given at its initialisation is the gate: no `log` macro
+    # reachable from run_cli may be at a level that it enables by default
+    LEVELS = ["Off", "Error", "Warn", "Info", "Debug", "Trace"]
+    inits = [(f, n) for f, c, n in P.ext_callers(lambda q: q.startswith("simple_logger::") and q.endswith("::with_level")) if f.path in reach]
+    for f, n in inits:
+        lv = next((norm(x["def"]).split("::")[-1] for a_ in n.get("args", []) for x in subnodes(a_) if x.get("k") == "Path" and "LevelFilter::" in norm(x.get("def") or "")), None)
+        if lv not in LEVELS:
+            R.undecided("R18-b", "stdout:logger-level", "the default log level given to the stdout logger is not a literal LevelFilter", loc=f.loc())
+            continue
+        enabled = []
+        for p in sorted(reach):
+            g = P.fns[p]
+            calls = [x for x in g.walk() if x.get("k") == "Call" and (call_name(x) or "") == "log::__private_api::log"]
+            if not calls:
+                continue
+            pv = Prov(g)
+            for x in calls:
+                lvls = {a[1].split("::")[-1] for a_ in x["args"] for a in pv.atoms(a_) if a[0] == "def" and a[1].startswith("log::Level::")}
+                if any(l in LEVELS and LEVELS.index(l) <= LEVELS.index(lv) for l in lvls):
+                    enabled.append("%s (%s)" % (short(p), "/".join(sorted(lvls))))
+        R.check("R18-b", "stdout:logger-level", not enabled, "the stdout logger is initialised at level %s, below every log call reachable from run_cli" % lv,
+                "the logger that writes to stdout is initialised at level %s, which enables the log call(s) in %s by default: their lines precede the report, "
+                "so in json/rdjson mode stdout is no longer one JSON document" % (lv, ", ".join(sorted(set(enabled))[:6])), loc=f.loc())
     # direct stdout handles
     others = [f.path for f, c, n in P.ext_callers(lambda q: q in ("std::io::stdio::stdout", "std::io::stdio::Stdout::lock")) if f.path in reach]
     R.check("R18-b", "stdout:handles", not others, "no other stdout handle is taken on the CLI path", "stdout handle taken in %s" % others)
@@ -783,6 +806,22 @@ def r18e(P, R):
                ("take", "find", "find_map", "next", "nth", "first", "last", "take_while", "skip", "step_by", "truncate", "pop")
                and any(w in norm(c.get("recv_ty", "") or "") for w in ("Error", "OperationDocument", "CheckImplInput"))]
         R.check("R18-e", "no-truncation:" + f.name, not bad, "no diagnostic list is truncated", "%s applies %s to a diagnostics/operations list" % (f.path, bad), loc=f.loc())
+        # diagnostics, once produced, reach the output unfiltered: no de-duplication by an equality of the stage's own making
+        # (sorting alone is harmless), whether by dedup/retain/unique on the list or by collecting it into a set or map
+        fi = inlined(P, f)
+        dd = [c["method"] for c in fi.walk() if c.get("k") == "MethodCall" and c["method"] in
+              ("dedup", "dedup_by", "dedup_by_key", "retain", "retain_mut", "unique", "unique_by", "extract_if")
+              and "Error" in norm(c.get("recv_ty", "") or "")]
+        dd += ["collect into %s" % peel_ty(c.get("t", "")).split("<")[0].split("::")[-1] for c in fi.walk()
+               if (c.get("k") == "MethodCall" and c.get("method") == "collect" or c.get("k") == "Call" and (call_name(c) or "").endswith("FromIterator::from_iter"))
+               and peel_ty(c.get("t", "") or "").startswith(("std::collections::hash::", "alloc::collections::btree::", "hashbrown::", "indexmap::"))
+               and "Error" in norm(c.get("t", "") or "")]
+        pos_cmp = [g for g in P.trait_impls("core::cmp::Ord", "cmp") + P.trait_impls("core::cmp::PartialEq", "eq") if (g.self_adt or "").endswith("::Pos") and not g.derived]
+        blind = pos_cmp and not any(fld == "file" for g in pos_cmp for a_, fld in field_reads(g))
+        R.check("R18-e", "no-deduplication:" + f.name, not dd, "diagnostics are passed on as produced",
+                "%s de-duplicates diagnostics (%s): diagnostics that compare equal under the list's own equality%s "
+                "collapse into one, so an offending file may be named by no diagnostic" % (
+                    f.path, ", ".join(dd), " (the comparison of positions never reads the file index)" if blind else ""), loc=f.loc())
     # CliOutput::extend appends every diagnostic it is given
     ext = [f for f in P.trait_impls("core::iter::traits::collect::Extend", "extend") if (f.self_adt or "").endswith("CliOutput")]
     for f0 in ext:
